@@ -1065,6 +1065,8 @@ type responseWriter struct {
 	// trailers before writing the first bytes of data (like Connect
 	// and REST unary).
 	buf *bytes.Buffer
+	// trailers written along with the end (keys include http.TrailerPrefix)
+	endTrailers http.Header
 }
 
 func (w *responseWriter) Header() http.Header {
@@ -1307,6 +1309,7 @@ func (w *responseWriter) flushHeaders() {
 }
 
 func (w *responseWriter) close() {
+	defer w.dropLateTrailers()
 	if !w.headersWritten {
 		// treat as empty successful response
 		w.WriteHeader(http.StatusOK)
@@ -1335,8 +1338,42 @@ func (w *responseWriter) close() {
 
 func (w *responseWriter) writeEnd(end *responseEnd, wasInHeaders bool) {
 	trailers := w.op.client.protocol.encodeEnd(w.op, end, w.delegate, wasInHeaders)
-	httpMergeTrailers(w.Header(), trailers)
+	header := w.Header()
+	httpMergeTrailers(header, trailers)
+	w.endTrailers = make(http.Header, len(trailers))
+	for key := range trailers {
+		if !strings.HasPrefix(key, http.TrailerPrefix) {
+			key = http.TrailerPrefix + key
+		}
+		w.endTrailers[key] = append([]string(nil), header[key]...)
+	}
 	w.endWritten = true
+}
+
+// dropLateTrailers runs when the handler has returned. The handler shares the
+// delegate's header map, so anything it set as a trailer after the end of the
+// RPC was written (typically its own status, when we already ended the RPC with
+// an error) would still be sent to the client by the delegate. Only the
+// trailers written with the end may remain.
+func (w *responseWriter) dropLateTrailers() {
+	if !w.endWritten {
+		return
+	}
+	header := w.delegate.Header()
+	for _, key := range parseMultiHeader(header.Values("Trailer")) {
+		// We only send trailers using http.TrailerPrefix, never via announced keys.
+		header.Del(key)
+	}
+	for key := range header {
+		if !strings.HasPrefix(key, http.TrailerPrefix) {
+			continue
+		}
+		if sent, ok := w.endTrailers[key]; ok {
+			header[key] = sent
+		} else {
+			delete(header, key)
+		}
+	}
 }
 
 // envelopingWriter will translate between envelope styles as data is
